@@ -314,7 +314,7 @@ func explore(t *core.T, s *shared, solo []string, threadOps [][]int, bound int, 
 	base := s.base
 	baseRoots := s.baseR
 	st := core.Explore(t, bound, 0, func(c *core.Ctx) {
-		sc := core.NewSched(c, 200000)
+		sc := core.NewSched(c, 50000000)
 		results := make([][]string, len(threadOps))
 		checked := 0
 		preempted := false
@@ -348,8 +348,11 @@ func explore(t *core.T, s *shared, solo []string, threadOps [][]int, bound int, 
 				}
 			})
 		}
-		panics := sc.Run(fs...)
-		verifrt.PointHook = nil
+		var panics []any
+		func() {
+			defer func() { verifrt.PointHook = nil }()
+			panics = sc.Run(fs...)
+		}()
 		for _, p := range panics {
 			t.Fail("panic-under-schedule", fmt.Sprintf("%s; schedule %v", desc, c.Choices()), "no panic", fmt.Sprint(p))
 		}
